@@ -41,12 +41,26 @@ type World struct {
 	trueKeys map[string]*shcrypto.EpochSecretKey
 }
 
-func NewWorld(n, t int, idents []string, seed int64) *World { return NewWorldIDLen(n, t, idents, seed, 0) }
+func NewWorld(n, t int, idents []string, seed int64) *World {
+	return NewWorldIDLen(n, t, idents, seed, 0)
+}
 
 // NewWorldIDLen is NewWorld with identity preimages of exactly idLen bytes (gnosis: 52, shutter
 // service: 32; 0 = the 23-byte form of NewWorld). The bytes still start with the identity name,
 // so the bytewise order of the preimages is the order of the names.
 func NewWorldIDLen(n, t int, idents []string, seed int64, idLen int) *World {
+	return NewWorldIDMode(n, t, idents, seed, idLen, "")
+}
+
+// NewWorldIDMode is NewWorldIDLen with a boundary choice of the byte strings of the FIRST TWO
+// identities (idLen is ignored for them):
+//
+//	"lead0":  idents[0] = 0x00 0x00 || X, idents[1] = X      (differ only by leading zero bytes)
+//	"trail0": idents[0] = X,              idents[1] = X || 0x00 (differ only by a trailing zero byte)
+//
+// with X = 20 seeded bytes whose first and last byte are non-zero. In both modes the bytewise order of
+// the two preimages is the order of the names. "" = ordinary identities.
+func NewWorldIDMode(n, t int, idents []string, seed int64, idLen int, mode string) *World {
 	w := &World{N: n, T: t, Eon: 7, idBytes: map[string][]byte{}, encMsgs: map[string]*shcrypto.EncryptedMessage{},
 		plain: []byte("verif: a message encrypted to the eon key"), trueKeys: map[string]*shcrypto.EpochSecretKey{}}
 	var err error
@@ -66,6 +80,20 @@ func NewWorldIDLen(n, t int, idents []string, seed int64, idLen int) *World {
 		}
 		if idLen > 0 {
 			w.idBytes[id] = w.idBytes[id][:idLen]
+		}
+		if k := indexOf(idents, id); mode != "" && len(idents) >= 2 && k < 2 {
+			hx := sha256.Sum256([]byte(fmt.Sprintf("boundary-identity-%d", seed)))
+			x := append([]byte(nil), hx[:20]...)
+			x[0] |= 0x31
+			x[19] |= 0x01
+			switch {
+			case mode == "lead0" && k == 0:
+				w.idBytes[id] = append([]byte{0, 0}, x...)
+			case mode == "trail0" && k == 1:
+				w.idBytes[id] = append(x, 0)
+			default:
+				w.idBytes[id] = x
+			}
 		}
 		sigma, _ := shcrypto.RandomSigma(newDetReader("sigma-" + id))
 		w.encMsgs[id] = shcrypto.Encrypt(w.plain, w.Keys.EonPublicKey(), shcrypto.ComputeEpochID(w.idBytes[id]), sigma)
@@ -145,4 +173,13 @@ func (w *World) Judge(id string, key *shcrypto.EpochSecretKey) string {
 		return "bad"
 	}
 	return "good"
+}
+
+func indexOf(l []string, x string) int {
+	for k, y := range l {
+		if y == x {
+			return k
+		}
+	}
+	return -1
 }
